@@ -29,15 +29,16 @@ ODD = ["http://a/x", "https://b/", "titan://a/n0;size=0", "GEMINI://a/n0", "/rel
        "gemini://a/n0#frag", "gemini://a/" + "L" * 1100, "//a/n0", "gemini:/a/n0"]
 
 
-def url_of(i, ports=False):
-    return f"gemini://{HOSTS[i % 3]}{':1965' if ports else ''}/n{i}"
+def url_of(i, ports=False, upper=False):
+    h = HOSTS[i % 3]
+    return f"gemini://{h.upper() if upper else h}{':1965' if ports else ''}/n{i}"
 
 
 def node_st(n):
     return st.one_of(
         st.just({"k": "final"}),
-        st.tuples(st.integers(0, n - 1), st.sampled_from([30, 31]), st.booleans()).map(
-            lambda t: {"k": "redir", "to": t[0], "status": t[1], "port": t[2]}),
+        st.tuples(st.integers(0, n - 1), st.sampled_from([30, 31]), st.booleans(), st.booleans()).map(
+            lambda t: {"k": "redir", "to": t[0], "status": t[1], "port": t[2], "upper": t[3]}),   # host possibly spelled in upper case
         st.tuples(st.integers(0, n - 1), st.integers(30, 39), st.booleans()).map(
             lambda t: {"k": "redir", "to": t[0], "status": t[1], "port": t[2]}),
         st.sampled_from([{"k": "drop", "how": "close"}, {"k": "drop", "how": "reset"}, {"k": "drop", "how": "stall"}]),
@@ -89,8 +90,8 @@ def enum_revisit(tier):
                 for after in (1, 2):
                     for maxr in (2, 3, 5):
                         # n0 (a) -> n<via> -> n3 (a) -> final
-                        nodes = [{"k": "redir", "to": via, "status": status, "port": port}, final, final, final]
-                        nodes[via] = {"k": "redir", "to": 3, "status": status, "port": port}
+                        nodes = [{"k": "redir", "to": via, "status": status, "port": port, "upper": port}, final, final, final]
+                        nodes[via] = {"k": "redir", "to": 3, "status": status, "port": port, "upper": not port}
                         yield {"nodes": nodes, "start": 0, "maxr": maxr, "follow": True, "badhost": "a", "bad_after": after}
                         # n0 (a) -> n3 (a) directly
                         nodes2 = [{"k": "redir", "to": 3, "status": status, "port": port}, final, final, final]
@@ -163,7 +164,7 @@ def run_case(case: dict):
                 if nd["k"] == "drop":
                     return b""  # the peer closes without a header
                 if nd["k"] == "redir":
-                    return f"{nd['status']} {url_of(nd['to'], nd['port'])}\r\n".encode()
+                    return f"{nd['status']} {url_of(nd['to'], nd['port'], nd.get('upper', False))}\r\n".encode()
                 return f"{nd['status']} {nd['meta']}\r\n".encode()
 
             peers[h] = memnet.ScriptedPeer(certs.get("ec-b" if h == case["badhost"] else "ec-a"),
@@ -260,7 +261,7 @@ def run_case(case: dict):
             return ok(**info)
         nd = case["nodes"][case["start"]]
         exp = {"final": ("resp", 20, "text/gemini", f"BODY-n{case['start']}"),
-               "redir": ("resp", nd.get("status"), url_of(nd.get("to", 0), nd.get("port", False)), None),
+               "redir": ("resp", nd.get("status"), url_of(nd.get("to", 0), nd.get("port", False), nd.get("upper", False)), None),
                "odd": ("resp", nd.get("status"), nd.get("meta"), None), "drop": None,
                "slash": ("resp", nd.get("status"), url_of(case["start"]) + "/", None)}[nd["k"]]
         if exp is None:
